@@ -538,7 +538,10 @@ def run(ctx):
             continue
         if rs[0][:len(rs[1])] != rs[1]:
             raise RuntimeError("oracle self-check failed: compacted and plain semantics disagree on\n" + P.prog_text(progs[i][0]))
-        bl = lib.parse_bool_list(o)
+        bl = None
+        for val, ty in parse_evals(o):
+            if ty == "list bool":
+                bl = [x.strip() == "true" for x in val.strip("[] \n").split(";")]
         exact[i] = {"rows": rs[0], "event": rs[2] if len(rs) > 2 else None,
                     "src_agree": bl[0] if bl else None, "model_agree": bl[1] if bl else None}
     # ---- validators (all n) on Polar's closed forms ------------------------------------------
